@@ -133,10 +133,13 @@ func (r Req) Bleve() *bleve.SearchRequest {
 		nf.AddNumericRange("neg", &lo, &mid)
 		nf.AddNumericRange("small", &mid, &hi)
 		nf.AddNumericRange("big", &hi, nil)
+		nf.AddNumericRange("nonneg", &mid, nil) // shares its lower bound with "small", open-ended
+		nf.AddNumericRange("upto4", nil, &hi)   // shares its upper bound with "small", open below
 		req.AddFacet("nums", nf)
 		df := bleve.NewFacetRequest("date", 10)
 		df.AddDateTimeRange("old", time.Date(2000, 1, 1, 0, 0, 0, 0, time.UTC), time.Date(2010, 1, 1, 0, 0, 0, 0, time.UTC))
 		df.AddDateTimeRange("new", time.Date(2010, 1, 1, 0, 0, 0, 0, time.UTC), time.Date(2030, 1, 1, 0, 0, 0, 0, time.UTC))
+		df.AddDateTimeRange("since2010", time.Date(2010, 1, 1, 0, 0, 0, 0, time.UTC), time.Time{})
 		req.AddFacet("dates", df)
 	}
 	return req
